@@ -169,6 +169,24 @@ def run_unit(unit_path, repo="/repo", tier="quick", seed=0, keep=False, extra_ar
                     break
         if not added:
             break
+    # ISOLATE: a function that ran out of resources in the joint run is verified once more on its own (fresh solver
+    # process, same text, same rlimit). Observed: after a *failed* function the shared Z3 process is in a different state and
+    # an unrelated, unchanged function 4 x slower. A pass in isolation discharges exactly the same obligations.
+    if (r["status"] != "ok" and r.get("rlimit_fns") and not only_fn and r["undecided"]
+            and all(u.startswith("resource limit:") for u in r["undecided"])):
+        ok_all = True
+        for q in r["rlimit_fns"]:
+            r2 = _run_unit_once(unit_path, repo, tier, seed, False, extra_args, rlimit, q, extra)
+            pf = [x for x in r2["times"].get("per_function", []) if x["function"].endswith("::" + q)]
+            others = [u for u in r2["undecided"] if not u.startswith("vacuity canary") ]
+            if not (pf and all(x["success"] for x in pf) and not r2["failures"] and not others):
+                ok_all = False
+                break
+            r.setdefault("fired", []).append(dict(rule="ISOLATE", file="", line=0,
+                                                  note=f"{q}: resource limit in the joint run, verified alone in {pf[0]['ms']} ms"))
+        if ok_all:
+            r["undecided"] = []
+            r["status"] = "violations" if r["failures"] else "ok"
     if extra:
         r.setdefault("fired", []).extend(dict(rule="AUTO-CONST", file=x.split(" :: ")[0], line=0, note=x) for x in extra)
     return r
@@ -284,6 +302,17 @@ def _run_unit_once(unit_path, repo="/repo", tier="quick", seed=0, keep=False, ex
                         org = gen.linemap.get(sp["line_start"])
                         where = str(org)
                 res["undecided"].append(f"resource limit: {msg} at {where}")
+                # which function ran out of resources (used by the ISOLATE retry in run_unit)
+                for sp in spans:
+                    if sp["file_name"].endswith(res["unit"] + ".rs"):
+                        for lo, hi, f in fn_by_line:
+                            if lo <= sp["line_start"] < hi:
+                                quals = [x["function"] for x in res["times"].get("per_function", [])
+                                         if x["function"].endswith("::" + f["label"]) and not x["success"]]
+                                if len(quals) == 1:
+                                    q = quals[0].split("::", 1)[1]
+                                    if q not in res.setdefault("rlimit_fns", []):
+                                        res["rlimit_fns"].append(q)
                 continue
             kind = classify(msg)
             if kind == "other" or d.get("code"):
